@@ -1003,6 +1003,7 @@ impl DiskIO {
         let block = metadata_block(&encoded)?;
         self.write_sectors_sync(FEOX_METADATA_BLOCK, &block)?;
         self.write_sectors_sync(FEOX_METADATA_BACKUP_BLOCK, &block)?;
+        self.flush()?;
         *metadata = next;
         Ok(())
     }
